@@ -47,7 +47,7 @@ class RenderFrame(Harness):
             cols[NAMES[j]] = pool_col(k, n, f"c{j}")
         if self.cls == "GeoJSON":
             cols["geometry"] = Arr("object", [choice(f"g{i}", [None, {"type": "Point", "coordinates": [1, 2]}]) for i in range(n)])
-        how = choice("how", ["to_string", "repr", "print_"])
+        how = choice("how", ["to_string", "repr", "print_"] + (["str"] if self.settings or not self.kinds else []))
         inp = {"obj": Frame(cols, cls=self.cls), "kind": "frame", "how": how, "kwargs": []}
         if self.settings:
             inp["settings"] = [list(x) for x in choice("settings", self.SETTINGS)]
@@ -120,7 +120,7 @@ class RenderVector(Harness):
     def build(self, ctx):
         n = choice("n", range(self.maxn + 1))
         v = pool_col(self.kind, n, "x"); v.cls = "Vector"
-        inp = {"obj": v, "kind": "vector", "how": choice("how", ["to_string", "repr"]), "kwargs": [],
+        inp = {"obj": v, "kind": "vector", "how": choice("how", ["to_string", "repr", "str"]), "kwargs": [],
                "terminal_width": SymI64(symx.sym_int_range("terminal_width", 20, 200))}
         if inp["how"] == "to_string" and choice("give_max", [False, True]):
             inp["kwargs"].append(["max_elements", choice("max_elements", range(0, n + 1))])
@@ -147,8 +147,8 @@ class RenderLod(Harness):
     def build(self, ctx):
         from .c15 import mk_items
         n = choice("n", range(self.maxn + 1))
-        inp = {"obj": LoD(mk_items(ctx, n, ["k"])), "kind": "lod", "how": choice("how", ["to_string", "repr", "print_"]), "kwargs": []}
-        if inp["how"] != "repr" and choice("give_max", [False, True]):
+        inp = {"obj": LoD(mk_items(ctx, n, ["k"])), "kind": "lod", "how": choice("how", ["to_string", "repr", "print_", "str"]), "kwargs": []}
+        if inp["how"] not in ("repr", "str") and choice("give_max", [False, True]):
             inp["kwargs"].append(["max_items", choice("max_items", range(0, n + 1))])
         return inp
     def conformance_ignore(self, real, pred): return True
